@@ -4,6 +4,7 @@ from __future__ import annotations
 
 import ast
 import builtins
+import re
 import symtable
 from typing import Dict, List, Optional, Set, Tuple
 
@@ -294,6 +295,73 @@ def run(repo: Repo, rep: Report, tier: str) -> None:
                 else:
                     rep.ok("R17.2", f"{site} {inst}", {"site": site, "hole": show(h.val)[:100], "kind": sorted(tags)})
     rep.floor("R17.2", 20)
+
+    # ---- R17.4 raw references to the builder's own objects need their module registered on the same path
+    body_level = {"pack_lines", "unpack_lines"}
+    method_reg = {}
+    for it in c.items:
+        if it.scenario in ("pack_method", "unpack_method") and it.bid == "main":
+            regd = {show(ev[1]) for ev in it.path.events if ev and ev[0] == "add_type_modules"}
+            for attr in ("B.encoder", "B.decoder"):
+                used = any(f"type_name({attr})" in show(h.val) for l in it.lines for h in l.tmpl.holes())
+                if used:
+                    method_reg.setdefault(attr, []).append(attr in regd)
+    seen4 = set()
+    n4 = 0
+    for it in c.items:
+        if it.kind != "buffer" or not it.compiled:
+            continue
+        regd = {show(ev[1]) for ev in it.path.events if ev and ev[0] == "add_type_modules"}
+        base = it.scenario.split("#")[0]
+        for l in it.lines:
+            for h in l.tmpl.holes():
+                m = re.fullmatch(r"type_name\((B\.(decoder|encoder|default_dialect|dialect))\)", show(h.val))
+                if not m:
+                    continue
+                attr = m.group(1)
+                # the reference is only evaluated when the object is not None
+                none = it.path.ident.get(attr) == "None" or it.path.atoms.get(f"bool({attr})") is False
+                k = (l.site[0], attr, attr in regd, none)
+                if k in seen4:
+                    continue
+                seen4.add(k)
+                n4 += 1
+                ok = attr in regd or none
+                if not ok and base in body_level and attr in ("B.encoder", "B.decoder"):
+                    # registered by add_(un)pack_method before the body is generated: checked on the method-level scenario
+                    ok = bool(method_reg.get(attr)) and all(method_reg[attr])
+                inst = f"{l.site[0].split('::')[-1]}: `{{type_name({attr})}}` module registered={attr in regd}"
+                if ok:
+                    rep.ok("R17.4", inst, None)
+                else:
+                    rep.violation("R17.4", l.site[0], f"raw reference to {attr} without add_type_modules({attr.replace('B.', 'self.')}) on the same generator path",
+                                  "the generated code names this object by its dotted module path; without registering its module in the namespace the "
+                                  "first execution of that line raises NameError", template=l.tmpl.show()[:300], path=_atoms(it.path))
+    rep.floor("R17.4", 6)
+
+    # ---- R17.5 sites that bind a schema class by object must keep doing so (confirmed instances are the reference)
+    seen5 = set()
+    for it in c.items:
+        if it.kind != "return" or it.scenario != "unpack.unpack_dataclass" or not isinstance(it.value, Tmpl):
+            continue
+        if it.path.atoms.get("bool(B.is_nailed)") is not True:
+            continue
+        first = it.value.parts[0] if it.value.parts and isinstance(it.value.parts[0], Hole) else None
+        if first is None or "__unpack" in show(first.val):
+            continue
+        by_obj = any(ev and ev[0] == "ensure_object" and show(ev[1]) == "spec.origin_type" and ev[2] is not None and show(ev[2]) == show(first.val) for ev in it.path.events)
+        k = (show(first.val), by_obj)
+        if k in seen5:
+            continue
+        seen5.add(k)
+        inst = f"unpack_dataclass (mixin path) refers to the nested class as {{{re.sub(chr(92) + 'd+', 'N', show(first.val))[:60]}}}"
+        if by_obj:
+            rep.ok("R17.5", inst + " bound to the class object", None)
+        else:
+            rep.violation("R17.5", it.entry, "nested dataclass referenced by name instead of by object",
+                          "this site used to bind the nested class object itself into the generated namespace; a dotted name is resolved at call time and "
+                          "finds whatever the module attribute holds then (rebound, deleted or differently named classes)", template=it.value.show()[:300])
+    rep.floor("R17.5", 1)
 
     # ---- R17.3 binding discipline of the namespace
     ens = repo.func(M_BUILDER, "CodeBuilder.ensure_object_imported")
